@@ -19,8 +19,11 @@ namespace Fastor {
 //----------------------------------------------------------------------------------------------------------//
 template<typename T, typename ABI>
 FASTOR_INLINE SIMDVector<T,ABI> min(const SIMDVector<T,ABI> &a, const SIMDVector<T,ABI> &b) {
-    SIMDVector<T,ABI> out;
-    for (FASTOR_INDEX i=0; i<SIMDVector<T,ABI>::Size; i++) { ((T*)&out)[i] = std::min(((T*)&a)[i],((T*)&b)[i]); }
+    // go through memory: reading the lanes of the vector member through a T* breaks strict aliasing
+    T _va[SIMDVector<T,ABI>::Size], _vb[SIMDVector<T,ABI>::Size];
+    a.store(_va,false); b.store(_vb,false);
+    for (FASTOR_INDEX i=0; i<SIMDVector<T,ABI>::Size; i++) { _va[i] = std::min(_va[i],_vb[i]); }
+    SIMDVector<T,ABI> out; out.load(_va,false);
     return out;
 }
 template<typename T, typename ABI>
@@ -100,8 +103,11 @@ FASTOR_INLINE SIMDVector<double,simd_abi::avx512> min(const SIMDVector<double,si
 //----------------------------------------------------------------------------------------------------------//
 template<typename T, typename ABI>
 FASTOR_INLINE SIMDVector<T,ABI> max(const SIMDVector<T,ABI> &a, const SIMDVector<T,ABI> &b) {
-    SIMDVector<T,ABI> out;
-    for (FASTOR_INDEX i=0; i<SIMDVector<T,ABI>::Size; i++) { ((T*)&out)[i] = std::max(((T*)&a)[i],((T*)&b)[i]); }
+    // go through memory: reading the lanes of the vector member through a T* breaks strict aliasing
+    T _va[SIMDVector<T,ABI>::Size], _vb[SIMDVector<T,ABI>::Size];
+    a.store(_va,false); b.store(_vb,false);
+    for (FASTOR_INDEX i=0; i<SIMDVector<T,ABI>::Size; i++) { _va[i] = std::max(_va[i],_vb[i]); }
+    SIMDVector<T,ABI> out; out.load(_va,false);
     return out;
 }
 template<typename T, typename ABI>
